@@ -1,7 +1,7 @@
 (* Props_C13.v — C13: profile tests flag both points of an inverted pair, in either cast direction.
    Only statements, `exact <lemma>` and Print Assumptions.
    (statements written out by tools/mk_props.py from the lemmas they restate) *)
-From IoosQc Require Import Base Generated Density DensityProofs Skel SkelProofs.
+From IoosQc Require Import Base Generated Density DensityProofs Skel SkelBase SkelP_density Arr Gen ArrBase ArrP_density GenBase GenP_density.
 
 
 (* density_inversion_test: for ALL profiles, lengths, missing placements in density and depth and all threshold options the operational model equals the per-point specification (no hypothesis) *)
@@ -231,6 +231,117 @@ Theorem C13_source_skeleton :
               (all_flags (length rho) GOOD)).
 Proof. exact (@skel_density). Qed.
 Print Assumptions C13_source_skeleton.
+
+(* TRANSLATOR TIE, whole function: the array program (delta = sign(diff(zinp)) * diff(inp)) AND the flag skeleton, both generated from the CURRENT source of density_inversion_test, compute exactly the model's flags (profiles of two or more records) *)
+Theorem C13_source_program :
+  forall (st ft : option Q) (rho z : list obs),
+         length rho = length z ->
+         (2 <= length rho)%nat ->
+         exists fl : list flag,
+           gen_flags (length rho) (fun _ : String.string => None)
+             (bind_num
+                [(String.String (Ascii.Ascii true true false false true true true false)
+                    (String.String (Ascii.Ascii true false true false true true true false)
+                       (String.String (Ascii.Ascii true true false false true true true false)
+                          (String.String (Ascii.Ascii false false false false true true true false)
+                             (String.String (Ascii.Ascii true false true false false true true false)
+                                (String.String
+                                   (Ascii.Ascii true true false false false true true false)
+                                   (String.String
+                                      (Ascii.Ascii false false true false true true true false)
+                                      (String.String
+                                         (Ascii.Ascii true true true true true false true false)
+                                         (String.String
+                                            (Ascii.Ascii false false true false true true true false)
+                                            (String.String
+                                               (Ascii.Ascii false false false true false true true
+                                                  false)
+                                               (String.String
+                                                  (Ascii.Ascii false true false false true true true
+                                                     false)
+                                                  (String.String
+                                                     (Ascii.Ascii true false true false false true
+                                                        true false)
+                                                     (String.String
+                                                        (Ascii.Ascii true true false false true true
+                                                           true false)
+                                                        (String.String
+                                                           (Ascii.Ascii false false false true false
+                                                              true true false)
+                                                           (String.String
+                                                              (Ascii.Ascii true true true true false
+                                                                 true true false)
+                                                              (String.String
+                                                                 (Ascii.Ascii false false true true
+                                                                    false true true false)
+                                                                 (String.String
+                                                                    (Ascii.Ascii false false true
+                                                                       false false true true false)
+                                                                    String.EmptyString)))))))))))))))),
+                  st);
+                 (String.String (Ascii.Ascii false true true false false true true false)
+                    (String.String (Ascii.Ascii true false false false false true true false)
+                       (String.String (Ascii.Ascii true false false true false true true false)
+                          (String.String (Ascii.Ascii false false true true false true true false)
+                             (String.String (Ascii.Ascii true true true true true false true false)
+                                (String.String
+                                   (Ascii.Ascii false false true false true true true false)
+                                   (String.String
+                                      (Ascii.Ascii false false false true false true true false)
+                                      (String.String
+                                         (Ascii.Ascii false true false false true true true false)
+                                         (String.String
+                                            (Ascii.Ascii true false true false false true true false)
+                                            (String.String
+                                               (Ascii.Ascii true true false false true true true
+                                                  false)
+                                               (String.String
+                                                  (Ascii.Ascii false false false true false true true
+                                                     false)
+                                                  (String.String
+                                                     (Ascii.Ascii true true true true false true true
+                                                        false)
+                                                     (String.String
+                                                        (Ascii.Ascii false false true true false true
+                                                           true false)
+                                                        (String.String
+                                                           (Ascii.Ascii false false true false false
+                                                              true true false) String.EmptyString))))))))))))),
+                  ft);
+                 (String.String (Ascii.Ascii false false true false true false true false)
+                    (String.String (Ascii.Ascii false true false false true true true false)
+                       (String.String (Ascii.Ascii true false true false true true true false)
+                          (String.String (Ascii.Ascii true false true false false true true false)
+                             String.EmptyString))), Some 1)]) (fun _ : String.string => None)
+             prog_density_inversion_test skel_density_inversion_test
+             [String.String (Ascii.Ascii true false false true false true true false)
+                (String.String (Ascii.Ascii false true true true false true true false)
+                   (String.String (Ascii.Ascii false false false false true true true false)
+                      String.EmptyString));
+              String.String (Ascii.Ascii false true false true true true true false)
+                (String.String (Ascii.Ascii true false false true false true true false)
+                   (String.String (Ascii.Ascii false true true true false true true false)
+                      (String.String (Ascii.Ascii false false false false true true true false)
+                         String.EmptyString)));
+              String.String (Ascii.Ascii false false true false false true true false)
+                (String.String (Ascii.Ascii true false true false false true true false)
+                   (String.String (Ascii.Ascii false false true true false true true false)
+                      (String.String (Ascii.Ascii false false true false true true true false)
+                         (String.String (Ascii.Ascii true false false false false true true false)
+                            String.EmptyString))))]
+             (bind_store
+                [(String.String (Ascii.Ascii true false false true false true true false)
+                    (String.String (Ascii.Ascii false true true true false true true false)
+                       (String.String (Ascii.Ascii false false false false true true true false)
+                          String.EmptyString)), rho);
+                 (String.String (Ascii.Ascii false true false true true true true false)
+                    (String.String (Ascii.Ascii true false false true false true true false)
+                       (String.String (Ascii.Ascii false true true true false true true false)
+                          (String.String (Ascii.Ascii false false false false true true true false)
+                             String.EmptyString))), z)]) GOOD = Some fl /\
+           density_model st ft rho z = Flags fl.
+Proof. exact (@gen_density). Qed.
+Print Assumptions C13_source_program.
 
 Theorem C13_assign_order :
   assign_order_density_inversion_test = [UNKNOWN; SUSPECT; SUSPECT; FAIL; FAIL; MISSING; MISSING] /\ assign_order_pressure_increasing_test = [SUSPECT].
